@@ -117,8 +117,12 @@ Digs10 == <<"0","1","2","3","4","5","6","7","8","9">>
 RECURSIVE DigsOf(_)
 DigsOf(i) == IF i < 10 THEN <<Digs10[i + 1]>> ELSE DigsOf(i \div 10) \o <<Digs10[(i % 10) + 1]>>
 
-Deep(n) == <<
-  Single("nested-comps-" \o ToString(n), "ok", << E("a", S(NestedComps(n))) >>),
+\* nesting depth n (recursion of the splitter is inherent in nesting)
+DeepNest(n) == <<
+  Single("nested-comps-" \o ToString(n), "ok", << E("a", S(NestedComps(n))) >>)
+>>
+\* length n (a sequence of n pieces needs no recursion)
+DeepSeq(n) == <<
   Single("many-vars-" \o ToString(n), "ok", << E("a", S(ManyVars(n))) >>),
   Single("many-comps-" \o ToString(n), "ok", << E("a", S(ManyComps(n))) >>),
   Single("unclosed-tags-" \o ToString(n), "ok", << E("a", S(UnclosedTags(n))) >>),
